@@ -14,9 +14,11 @@ func VerifC12_Coinswap() {
 	verifExpect("roundtrip")
 	e := newCsEnv(true)
 	one, w := big.NewInt(1), verifPow2(64)
-	npools := verifChoice("pools", 3) // 0..2 pools
-	for i, d := range []string{"btc", "eth"}[:npools] {
-		n := []string{"1", "2"}[i]
+	npools := verifChoice("pools", 4) // 0..3 pools
+	// created in any order: export lists the pools by id, not by age
+	denoms := [][]string{{"btc", "dai", "eth"}, {"btc", "eth", "dai"}, {"dai", "btc", "eth"}, {"dai", "eth", "btc"}, {"eth", "btc", "dai"}, {"eth", "dai", "btc"}}[verifChoice("creationOrder", 6)][:npools]
+	for i, d := range denoms {
+		n := []string{"1", "2", "3"}[i]
 		e.bank.fund(e.sender, csStd, verifIntIn("std"+n, one, w).Add(e.k.GetParams(e.ctx).PoolCreationFee.Amount))
 		amt := verifIntIn("tok"+n, one, w)
 		e.bank.fund(e.sender, d, amt)
@@ -38,7 +40,7 @@ func VerifC12_Coinswap() {
 	verifCover("roundtrip")
 	g2 := e2.k.ExportGenesis(e2.ctx)
 	verifAssert(verifDeepEqual(g, g2), "a second export equals the first")
-	for _, d := range []string{"btc", "eth"}[:npools] {
+	for _, d := range denoms {
 		p1, ok1 := e.k.GetPool(e.ctx, types.GetPoolId(d))
 		p2, ok2 := e2.k.GetPool(e2.ctx, types.GetPoolId(d))
 		verifAssert(ok1 && ok2 && verifDeepEqual(p1, p2), "pool queries answer identically after re-import")
